@@ -41,6 +41,23 @@ def run(ctx):
             return
         for (ptr, msg) in wire.schema_errors(pdoc, "Package"):
             ctx.violate("schema", "package:" + (ptr or "root"), {"message": msg})
+        # ... and as the other emitters write it: the text envelope, the compressed envelope
+        import pyzstd
+        from hugr.envelope import EnvelopeConfig
+        for how, get in (("to_str", lambda: Package([h]).to_str()[10:].encode("utf-8")),
+                         ("to_bytes(zstd)", lambda: pyzstd.decompress(Package([h]).to_bytes(EnvelopeConfig(zstd=0))[10:]))):
+            try:
+                pdoc2 = wire.strict_loads(get())
+            except wire.NotJson as e:
+                ctx.violate("schema", f"package:{how}:payload-is-not-json", {"error": str(e)})
+                return
+            except Exception as e:  # noqa: BLE001
+                ctx.violate("serialise", f"package-raised:{how}:{type(e).__name__}", repr(e)[:200])
+                return
+            if pdoc2 != pdoc:
+                errs = wire.schema_errors(pdoc2, "Package")
+                ctx.violate("schema", f"package:{how}:" + ((errs[0][0] or "root") if errs else "differs-from-the-to_bytes-document"),
+                            {"message": errs[0][1] if errs else None})
     # the reader re-emits: the re-emitted document is checked too
     if ch.coin(1, 5, "reader-reemit"):
         from .. import restart
